@@ -81,10 +81,18 @@ def run_replay_file(path, tz="UTC", observe=False, timeout=120):
 
 def run_ob(args):
     """worker entry: explore one obligation. Returns a JSON-able result dict."""
-    prop, obd, tier, seed, do_selfcheck = args
+    prop, obd, tier, seed, do_selfcheck = args[:5]
+    deadline = args[5] if len(args) > 5 else None
     _setup_process()
     t0 = time.time()
     res = dict(name=obd["name"], status="ok", error=None, wall_s=0.0)
+    if deadline is not None:
+        left = deadline - t0
+        if left <= 5:
+            # the check-level time budget of this tier is used up: the obligation is reported as not explored
+            res.update(status="budget", error="check-level budget exhausted before this obligation started", stats={}, asserts=0, not_started=True)
+            return res
+        obd = dict(obd, budget_s=min(obd["budget_s"], max(30, left)))
     try:
         _ensure_shims()
         import z3
@@ -297,7 +305,13 @@ def main(prop, tier="quick", jobs=None, seed=0, only=None, verbose=False):
     cap = int(os.environ.get("VERIF_OB_BUDGET", "300" if tier == "quick" else "2400"))
     for o in obs:
         o.budget_s = min(o.budget_s, cap)      # quick tier: no single obligation may run longer than 5 minutes
-    tasks = [(prop, obs[i].asdict(), tier, seed, i in sc_idx) for i in order]
+    # thorough tier: a wall-clock budget per check (lightest obligations first, so that as many as possible complete;
+    # what does not start or finish inside it is listed as over budget / not started, never as discharged)
+    check_budget = int(os.environ.get("VERIF_CHECK_BUDGET", "0" if tier == "quick" else "1200"))
+    deadline = (t0 + check_budget) if check_budget else None
+    if deadline:
+        order.sort(key=lambda i: obs[i].weight)
+    tasks = [(prop, obs[i].asdict(), tier, seed, i in sc_idx, deadline) for i in order]
     # clean old replays for this property (evidence must come from this run)
     rdir = os.path.join(OUT, "replays", prop)
     if os.path.isdir(rdir) and not only:
@@ -362,7 +376,7 @@ def report(prop, tier, seed, mod, results, wall, partial=False):
             samples=samples or [dict(note="no obligation completed")],
             obligations=asserts, discharged=discharged, discharged_structurally_float_exact=structural,
             inconclusive=inconc, inconclusive_where=[dict(obligation=r["name"], labels=r["inconclusive"]) for r in results if r.get("inconclusive")][:20],
-            harness_obligations=len(results), obligations_over_budget=budget,
+            harness_obligations=len(results), obligations_over_budget=budget, obligations_not_started=[r["name"] for r in results if r.get("not_started")],
             paths_aborted_infeasible=agg("aborted"), solver_queries=agg("queries"), solver_queries_fresh_tier=agg("q_fresh"),
             solver_s=round(agg("solver_s"), 2), unknown_at_branch_overapproximated=agg("unknown_branch"),
             selfvalidation_runs=len(svs), selfvalidation_ok=sv_ok,
